@@ -424,6 +424,47 @@ def _check_metadata(ctx: Ctx) -> None:
 
 
 # ---------------------------------------------------------------------------------------------
+def _method_name_env(fi: FunctionInfo, name: str) -> dict[str, object]:
+    """Bind every expression of ``fi`` that carries the dispatched method's name to ``name`` — found by
+    dataflow, not by spelling: the method-name parameter, ``<p>.name`` for a parameter/local holding the
+    RpcMethodInfo (annotated so, or looked up in ``…._methods`` by the method name), the first element of
+    the tuple returned by ``_read_request(...)``, and plain aliases of any of these."""
+    env: dict[str, object] = {}
+    a = fi.node.args
+    for p in [*a.posonlyargs, *a.args, *a.kwonlyargs]:
+        ann = ast.unparse(p.annotation) if p.annotation is not None else ""
+        if "RpcMethodInfo" in ann:
+            env[f"{p.arg}.name"] = name
+        elif p.arg == "method_name" or (ann == "str" and "method" in p.arg):
+            env[p.arg] = name
+    for _round in range(3):
+        for n in walk_scope(fi.node):
+            if isinstance(n, ast.AnnAssign) and n.value is not None:
+                tgts, v = [n.target], n.value
+            elif isinstance(n, ast.Assign):
+                tgts, v = list(n.targets), n.value
+            else:
+                continue
+            if isinstance(v, ast.Call) and last_attr(v) == "_read_request":
+                for t in tgts:
+                    if isinstance(t, ast.Tuple) and t.elts and isinstance(t.elts[0], ast.Name):
+                        env[t.elts[0].id] = name
+            looked_up = None
+            if isinstance(v, ast.Call) and last_attr(v) in ("get", "__getitem__") and isinstance(v.func, ast.Attribute) and txt(v.func.value).endswith("_methods") and v.args:
+                looked_up = v.args[0]
+            elif isinstance(v, ast.Subscript) and txt(v.value).endswith("_methods"):
+                looked_up = v.slice
+            if looked_up is not None and txt(looked_up) in env:
+                for t in tgts:
+                    if isinstance(t, ast.Name):
+                        env[f"{t.id}.name"] = name
+            if isinstance(v, (ast.Name, ast.Attribute)) and txt(v) in env:
+                for t in tgts:
+                    if isinstance(t, ast.Name):
+                        env[t.id] = name
+    return env
+
+
 def _check_server(ctx: Ctx) -> None:
     name = ctx.repo.const_str(ctx.repo.module(INTRO), ctx.repo.const(INTRO + ":DESCRIBE_METHOD_NAME"))
     if not isinstance(name, str):
@@ -515,7 +556,7 @@ def _check_server(ctx: Ctx) -> None:
     for spec, label in ((SERVE_UNARY, "pipe"), (HTTP_UNARY, "http")):
         fi = ctx.fn(spec)
         cfg = cfg_of(fi.node)
-        env: dict[str, object] = {"info.name": name, "method_name": name, "ipc_method": name}
+        env: dict[str, object] = _method_name_env(fi, name)
         for n in walk_scope(fi.node):
             if isinstance(n, ast.Attribute) and n.attr == "_describe_batch":
                 env[txt(n)] = sentinel
@@ -549,7 +590,7 @@ def _check_server(ctx: Ctx) -> None:
         if not gate:
             ctx.hold("RF-DOM", f"describe-exempt-from-version-gate:{label}", fi, None, "no version gate on this path", nontrivial=False)
             continue
-        env = {"method_name": name, "ipc_method": name, "info.name": name}
+        env = _method_name_env(fi, name)
         for n in walk_scope(fi.node):
             if isinstance(n, ast.Attribute) and n.attr == "_protocol_version_parts":
                 env[txt(n)] = (1, 2, 3)
